@@ -207,6 +207,14 @@ impl<'a> SopModeler<'a> {
 
     /// Solve the problem
     fn solve(self) -> Vec<(Sop, Soes)> {
+        #[cfg(volute_verif)]
+        crate::verif::mip::record(
+            &self.vars,
+            &self.constraints,
+            &self.objective,
+            &self.cubes,
+            &self.ecubes,
+        );
         let mut pb = self
             .vars
             .minimise(self.objective.clone())
@@ -448,6 +456,8 @@ impl<'a> EsopModeler<'a> {
 
     /// Solve the problem
     fn solve(self) -> Vec<Esop> {
+        #[cfg(volute_verif)]
+        crate::verif::mip::record(&self.vars, &self.constraints, &self.objective, &self.cubes, &[]);
         let mut pb = self
             .vars
             .minimise(self.objective.clone())
